@@ -7,6 +7,7 @@ import SV.Proofs.C06Url
 import SV.Proofs.C06Headers
 import SV.Proofs.C06Session
 import SV.Proofs.C06Template
+import SV.Proofs.C06Entries
 
 namespace SV.Props.C06
 open SV.Model.C06 SV.Spec.C06 SV.Proofs.C06
@@ -615,5 +616,41 @@ example :
         [.unmodified, .withParameter .query (lit "q") (.prim (.bool true)), .unmodified])[1]? =
       some [(.path, some [(lit "id", .prim (.str (lit "a%20b")))]), (.query, some [(lit "q", .prim (.str (lit "true")))])] := by
   decide
+
+/-! ### query parameters spread over several entries -/
+
+section Entries
+open SV.Proofs.C06Entries
+
+/-- **Exploded form arrays.**  For every parameter name and every array of primitives (any length, booleans and nulls
+    included): the query string carries one entry per item under the parameter's name, in order, each spelled as JSON
+    spells it — and the reference reading of `style: form, explode: true` gives the generated array back. -/
+theorem exploded_array_roundtrip (vt vm vs : Variant) (name : Str) (xs : List Prim) :
+    ∃ es, cellEntries vt vm vs arrayCell name (.arr xs) = some es ∧ decodeFormExplodedArray name es = coerce (.arr xs) :=
+  ⟨_, array_entries vt vm vs name xs, array_decodes name xs⟩
+
+/-- **Exploded form objects.**  For every non-empty object with pairwise different member names: one entry per member
+    under the member's name, read back as the generated object. -/
+theorem exploded_object_roundtrip (vt vm vs : Variant) (name : Str) (kvs : List (Str × Prim)) (hne : kvs ≠ [])
+    (hnd : (kvs.map (·.1)).Nodup) :
+    ∃ es, cellEntries vt vm vs objectCell name (.obj kvs) = some es ∧ decodeFormExplodedObject es = coerce (.obj kvs) :=
+  ⟨_, object_entries vt vm vs name kvs hne hnd, object_decodes kvs⟩
+
+/-- **deepObject.**  For every non-empty object with pairwise different member names — whatever characters the names
+    contain — the entries are `name[member]=value` and the reference decoder gives the generated object back. -/
+theorem deep_object_roundtrip (vt vm vs : Variant) (name : Str) (kvs : List (Str × Prim)) (hne : kvs ≠ [])
+    (hnd : (kvs.map (·.1)).Nodup) :
+    ∃ es, cellEntries vt vm vs deepCell name (.obj kvs) = some es ∧ decodeDeepObject name es = coerce (.obj kvs) :=
+  ⟨_, deep_entries vt vm vs name kvs hne hnd, deep_decodes name kvs⟩
+
+/-- what `jsonify_python_specific_types` has to do inside lists: an item left as Python's `None` is not an entry at all
+    (requests drops it) — here: the entries of `[null, 1]` are two, `null` spelled out -/
+example : cellEntries .repaired .repaired .repaired arrayCell (lit "ids") (.arr [.null, .int 1]) =
+    some [(lit "ids", lit "null"), (lit "ids", lit "1")] := by decide
+
+/-- the empty object is sent as an empty value under the parameter's own name (not covered by the round trip) -/
+example : cellEntries .repaired .repaired .repaired deepCell (lit "f") (.obj []) = some [(lit "f", [])] := by decide
+
+end Entries
 
 end SV.Props.C06
